@@ -114,6 +114,21 @@ fn strategy(tier: Tier) -> BoxedStrategy<Case> {
                         }
                     }
                     let cancel = if with_cancel { Some((csock, cat % total_ms)) } else { None };
+                    // with a cancellation: the applications of the connections open at that moment go on using their
+                    // write halves afterwards (a later write, then a flush) — "all stream halves then report errors"
+                    if let Some((_, t)) = cancel {
+                        for p in plans.iter_mut() {
+                            if p.start_ms <= t && t < p.start_ms + 4_000 && (p.key & 1) == 0 {
+                                let late = t - p.start_ms + 40 + (p.key % 500) as u32;
+                                let n0 = p.a_w.iter().find_map(|o| if let WOp::Write { n, .. } = o { Some(*n) } else { None }).unwrap_or(1);
+                                p.a_w = vec![WOp::Write { n: n0, chunk: 4096 }, WOp::Sleep(late), WOp::Write { n: 5, chunk: 4096 }, WOp::Flush, WOp::Drop];
+                                p.a_r = vec![ROp::Sleep(late + 100), ROp::Drop];
+                                let n1 = p.b_w.iter().find_map(|o| if let WOp::Write { n, .. } = o { Some(*n) } else { None }).unwrap_or(0);
+                                p.b_w = vec![WOp::Write { n: n1.max(1), chunk: 4096 }, WOp::Sleep(late), WOp::Write { n: 5, chunk: 4096 }, WOp::Flush, WOp::Drop];
+                                p.b_r = vec![ROp::Sleep(late + 100), ROp::Drop];
+                            }
+                        }
+                    }
                     if let Some((s, t)) = cancel { events.push((t, Event::CancelSocket(s as usize))); }
                     let sc = Scenario {
                         socks,
@@ -235,6 +250,8 @@ pub fn oracle(case: &Case, res: &RunResult) -> Outcome {
             for r in &c.ep[side].recs {
                 if r.t_us > t + 25_000 {
                     if let AppEv::Wrote(_) = r.ev { viol!("write-after-cancel", "connection {ci}: a write succeeded at t={} us after socket {s} was cancelled at t={t} us", r.t_us); }
+                    if let AppEv::FlushOk = r.ev { if r.t_start_us > t + 25_000 { viol!("write-after-cancel", "connection {ci}: a flush called at t={} us returned Ok after socket {s} was cancelled at t={t} us", r.t_start_us); } }
+                    labels.insert("operation_after_cancel");
                 }
             }
         }
